@@ -470,6 +470,37 @@ func c03(x *mon.Ctx) {
 	x.Require("qe-signer-is-platform-ca", 0, nw, nw)
 	stageEventsForgedUnderDefaultRoot(x)
 
+	// ---- a getter that re-uses its read buffer: the TCB Info response carries a FORGED member F (status flipped to UpToDate, padded
+	//      to the genuine member's length) next to the genuine signature; the QE Identity response, fetched next, carries the
+	//      genuine member G as an extra, ignored member at the very offset F had. Whatever was decoded from F is unsigned.
+	{
+		n := 0
+		for wi := 0; wi < x.Pick(4, 24); wi++ {
+			r := x.Rand(fmt.Sprint("buffer-reuse", wi))
+			w := richHonest(r)
+			w.Resign()
+			for i := range w.Tcb.Levels {
+				w.Tcb.Levels[i].Status = "OutOfDate"
+			}
+			g := w.Tcb.JSON()
+			f := strings.Replace(g, `"tcbStatus":"OutOfDate"`, `"tcbStatus":"UpToDate" `, -1) // same length, JSON whitespace
+			if len(f) != len(g) || f == g {
+				continue
+			}
+			sig := hex.EncodeToString(world.RawSig(w.PKI.TcbSign.Key, []byte(g)))
+			w.TcbBody = world.BodyWithSig("tcbInfo", f, sig)
+			qe := w.Qe.JSON()
+			w.QeBody = []byte(fmt.Sprintf(`{"comment":%s,"enclaveIdentity":%s,"signature":"%s"}`, g, qe, hex.EncodeToString(world.RawSig(w.PKI.TcbSign.Key, []byte(qe)))))
+			for _, reuse := range []bool{true, false} {
+				c := w.Case(world.LColl, "forged-member-with-genuine-bytes-fetched-over-it", fmt.Sprintf("w%d/getter-reuses-buffer=%v", wi, reuse))
+				c.Expect, c.ReuseGetterBuffer, c.ShadowSkip = "reject", reuse, true
+				check(x, wi, c)
+				n++
+			}
+		}
+		x.Require("forged-member-with-genuine-bytes-fetched-over-it", 0, n, n)
+	}
+
 	// ---- many distinct collateral signers under one pool, then the first chains again (see manyThenAgain)
 	{
 		r := x.Rand("scale")
